@@ -23,7 +23,8 @@ TEMPLATES = {
     'one': [["x{k} = p({k}, '{o}')"],
             ["x{k} = p({k}, '{o}')  # a plain comment"],
             ["x{k} = p({k}, '{o}') or '>>> not a prompt'"],
-            ["x{k} = p({k}, '{o}', ) or '# xdoctest: +SKIP in a string'"]],
+            ["x{k} = p({k}, '{o}', ) or '# xdoctest: +SKIP in a string'"],
+            ["x{k} = p({k}, '{o}')   "]],                                  # trailing blanks are part of the line
     'expr': [["v({k}, '{o}')"], ["(v({k}, '{o}'))"]],
     'semi': [["y{k} = 1; v({k}, '{o}')"]],
     'cmt': [["# just a comment {k}"], ["#comment{k}"]],
@@ -35,6 +36,7 @@ TEMPLATES = {
     'ml3': [["x{k} = p({k},", "       '{o}',", "       )"],
             ["x{k} = [p({k}, '{o}'),", "       2,", "       3]"]],
     'tri3': [["x{k} = p({k}, '''{o}", "inner line {k}", "end{k}''')"],
+             ["x{k} = p({k}, '''{o}  ", "padded {k}    ", "end{k}''')"],                          # trailing blanks inside the string
              ['x{k} = p({k}, """{o}', "inner 'quoted' {k}", 'end{k}""")']],
     'cmp2': [["for _i{k} in [0]:", "    x{k} = p({k}, '{o}')"],
              ["if True:", "    x{k} = p({k}, '{o}')"],
@@ -51,7 +53,7 @@ TEMPLATES = {
     'exc': [["rz({k}, ValueError('m{k}'))"], ["(rz({k}, ValueError('m{k}: detail')))"]],
     'star': [["from os.path import *"], ["from collections import *  # star"]],
     'pair2': [["x{k} = p({k}, '{o}')", "y{k} = {k}"]],
-    'badone': [["x{k} = = 1"], ["def {k}bad(:"], ["x{k} = 1 +"]],
+    'badone': [["x{k} = = 1"], ["d{k} = {{'a': 1,, 'b': 2}}"], ["print('{{}}'.format({k}) 2)"], ["def {k}bad(:"], ["x{k} = 1 +"]],
     'trunc2': [["x{k} = [p({k}, '{o}'),", "2"], ["x{k} = '''{o}", "never closed"]],
     'braw3': [["x{k} = [1,", "2,", "3]"]],
 }
